@@ -121,13 +121,16 @@ def validator_probes(ctx, res, ops, impl):
             if not isinstance(value, tuple) and value <= 0:
                 continue                      # a zero-valued output is refused elsewhere (range check), not here
             blk = mk(h, parent.hash(), value)
+            other = False
             try:
                 consensus.validate_coinbase_transaction_in_coinstate(blk.transactions[0], blk, st)
                 got = True
             except consensus.ValidationError:
                 got = False
+            except Exception:
+                got, other = False, True           # not a validation error: compared with the model as such
             ops.append("cbchk v " + hx(blk.serialize()))
-            impl.append("ok" if got else "rej validation")
+            impl.append("ok" if got else ("rej other" if other else "rej validation"))
             res.case(("validator", h, value), nontrivial=True)
             res.count("validator_probe:" + ("allowed" if allowed else "excess"))
             if got != allowed and v_reported < 5:
@@ -136,6 +139,33 @@ def validator_probes(ctx, res, ops, impl):
                                                "allows %d there" % ("accepts" if got else "rejects", value, h, spec(h)),
                                        "height": h, "claimed": value, "block": blk.serialize().hex(),
                                        "parent": parent.serialize().hex()})
+        # the height that selects the subsidy is the block's position on its chain: on a chain of two stored blocks (heights
+        # h-2, h-1) a block that claims the parent's height again, or skips one, is refused whatever it pays
+        if h >= 2 and (h % 3 == 0 or spec(h - 1) > spec(h)):
+            grand = mk(h - 2, b"\x00" * 32, 1)
+            par2 = mk(h - 1, grand.hash(), 1)
+            st2 = CoinState.empty().add_block_no_validation(grand).add_block_no_validation(par2)
+            ops.extend(["new v2", "addnv v2 v2 " + hx(grand.serialize()), "addnv v2 v2 " + hx(par2.serialize())])
+            impl.extend(["ok", "ok", "ok"])
+            for claimed in (h - 1, h + 1, h):
+                blk = mk(claimed, par2.hash(), spec(claimed)) if spec(claimed) > 0 else None
+                if blk is None:
+                    continue
+                try:
+                    consensus.validate_coinbase_transaction_in_coinstate(blk.transactions[0], blk, st2)
+                    got = True
+                except Exception:
+                    got = False
+                ops.append("cbchk v2 " + hx(blk.serialize()))
+                impl.append("ok" if got else "rej validation")
+                res.case(("validator-height", h, claimed), nontrivial=True)
+                res.count("validator_probe:height_" + ("right" if claimed == h else "wrong"))
+                if got != (claimed == h) and v_reported < 8:
+                    v_reported += 1
+                    res.violations.append({"kind": "the validator %s a block claiming height %d (and that height's subsidy) on a parent "
+                                                   "of height %d" % ("accepts" if got else "rejects", claimed, h - 1),
+                                           "block": blk.serialize().hex(), "parent": par2.serialize().hex(),
+                                           "grandparent": grand.serialize().hex()})
 
 
 def run(ctx):
